@@ -16,6 +16,7 @@ import random
 import vlib
 
 DEV_STOP = "stop-running-basic-nil-processstate"
+DEV_REAPER = "kill-races-with-reaper-start"
 
 KINDS = ["basic", "hook", "ctl"]
 BEHS = ["sleep", "ignore", "fork", "exit0", "exit3", "crash", "noready", "stuck"]
@@ -24,7 +25,7 @@ INSTS = ["launching", "nochild", "starting", "polling", "running", "exiting", "r
 NTHS = [1, 2]   # first / repeated request of its type
 INVS = ["OneTerminal", "KilledNotFailed", "NoSurvivors", "ExecutorSurvives"]
 IMPL = {"basic": "basicTaskBase", "hook": "basicTaskBase", "ctl": "ControllableTask"}
-WORKERS = min(4, vlib.NCPU)
+WORKERS = min(8, vlib.NCPU)
 
 
 def tla_set(xs):
@@ -52,7 +53,11 @@ def mc_module(known):
     return "---- MODULE ExecTaskMC ----\nEXTENDS ExecTask\nKnownSet == {\n  %s}\n====\n" % rows
 
 
-def cfg_model(kind, maxreq, dev_stop, invs):
+def tf(b):
+    return "TRUE" if b else "FALSE"
+
+
+def cfg_model(kind, maxreq, dev, invs, behs=None):
     return """SPECIFICATION Spec
 CONSTANTS
   Kinds = {"%s"}
@@ -60,13 +65,14 @@ CONSTANTS
   Holds = {FALSE}
   MaxReq = %d
   DevStopNilDeref = %s
+  DevReaperField = %s
   Known <- KnownSet
 INVARIANTS %s
 CHECK_DEADLOCK FALSE
-""" % (kind, tla_set(BEHS), maxreq, "TRUE" if dev_stop else "FALSE", " ".join(invs))
+""" % (kind, tla_set(behs or BEHS), maxreq, tf(dev[0]), tf(dev[1]), " ".join(invs))
 
 
-def cfg_gen(dev_stop):
+def cfg_gen(dev):
     return """SPECIFICATION GenSpec
 CONSTANTS
   Kinds = %s
@@ -74,14 +80,15 @@ CONSTANTS
   Holds = {TRUE, FALSE}
   MaxReq = 6
   DevStopNilDeref = %s
+  DevReaperField = %s
   Known = {}
   Seconds = TRUE
 INVARIANT PrintScn
 CHECK_DEADLOCK FALSE
-""" % (tla_set(KINDS), tla_set(BEHS), "TRUE" if dev_stop else "FALSE")
+""" % (tla_set(KINDS), tla_set(BEHS), tf(dev[0]), tf(dev[1]))
 
 
-def cfg_trace(dev_stop):
+def cfg_trace(dev):
     return """SPECIFICATION TraceSpec
 CONSTANTS
   Kinds = %s
@@ -89,10 +96,11 @@ CONSTANTS
   Holds = {TRUE, FALSE}
   MaxReq = 8
   DevStopNilDeref = %s
+  DevReaperField = %s
   Known = {}
 INVARIANT PrintEnd
 CHECK_DEADLOCK FALSE
-""" % (tla_set(KINDS), tla_set(BEHS), "TRUE" if dev_stop else "FALSE")
+""" % (tla_set(KINDS), tla_set(BEHS), tf(dev[0]), tf(dev[1]))
 
 
 def scn_from_gen(sid, rec):
@@ -122,9 +130,10 @@ def scn_from_counterexample(sid, beh, inv):
         elif name == "Proc":
             nxt = prev["sent"][prev["procd"]]
             steps.append({"a": "ProcHeld" if nxt in ("FINISHED", "FAILED", "KILLED") else "Proc"})
-        elif name in ("NoopBody", "StartBody", "StopBody", "TransCommit", "KillSend"):
+        elif name in ("Respond", "KillSend"):
             steps.append({"a": "Body", "r": prev["hs"][int(args[0]) - 1]["r"]})
-        elif name in ("WaitRet", "KillBodyBasic", "TransBody"):
+        elif name in ("WaitRet", "KillBodyBasic", "TransBody", "ReaperStart", "NoopBody", "StartBody", "StopBody", "TransCommit",
+                      "LWaitRet"):
             steps.append({"a": "Nop"})
         elif name == "KBody":
             steps.append({"a": "KWalk"})
@@ -144,7 +153,7 @@ def racy(s):
 
 
 def run(ctx):
-    dev_stop = ctx.deviation_open(DEV_STOP)
+    dev_stop = (ctx.deviation_open(DEV_STOP), ctx.deviation_open(DEV_REAPER))
     quick = ctx.tier == "quick"
     known = known_classes(ctx)
     ctx.assumptions += [
@@ -163,11 +172,14 @@ def run(ctx):
     # 1. exhaustive model checking, per task kind; violations outside the classes of open findings are new
     invs = ["TypeOK", "OneTerminalX", "KilledNotFailedX", "NoSurvivorsX", "ExecutorSurvivesX"]
     bounds = {"basic": 3, "hook": 3, "ctl": 2} if quick else {"basic": 4, "hook": 4, "ctl": 3}
+    # quick: for the shell-script kinds "ignore" behaves like "sleep" (only SIGKILL is ever sent) and exit0 like exit3
+    qbehs = ["sleep", "fork", "exit3", "crash", "noready", "stuck", "ignore", "exit0"]
+    behs_of = {"basic": qbehs[:4], "hook": qbehs[:4], "ctl": BEHS} if quick else {}
     scenarios = []
     predicted_new = []
     sid = 0
     for kind in KINDS:
-        r = ctx.model_check("ExecTaskMC", None, cfg_text=cfg_model(kind, bounds[kind], dev_stop, invs),
+        r = ctx.model_check("ExecTaskMC", None, cfg_text=cfg_model(kind, bounds[kind], dev_stop, invs, behs_of.get(kind)),
                             files={"ExecTaskMC.tla": mc_module(known)}, workers=WORKERS, timeout=900)
         if r.violated:
             inv = r.violated[0][:-1] if r.violated[0].endswith("X") else r.violated[0]
